@@ -17,15 +17,20 @@ import (
 // Engine owns the scratch copy and the simulation binaries.
 type Engine struct {
 	S        *build.Scratch
-	Plain    string
-	Race     string
+	Plain    map[string]string // world -> binary
+	Race     map[string]string
 	Rewrite  *rewrite.Stats
 	GenStats *rewrite.Stats
 	jobSeq   int
 	mu       sync.Mutex
 }
 
-const worldConfig = "generator:\n  features:\n    enable: [\"ogen/unimplemented\"]\n"
+// Worlds are the feature configurations the one world spec is regenerated in. The generated API is the
+// same in both (the typed harness compiles against either); what differs is which code paths exist.
+var Worlds = []struct{ Name, Config string }{
+	{"a", "generator:\n  features:\n    enable: [\"ogen/unimplemented\"]\n"},
+	{"b", "generator:\n  features:\n    enable: [\"client/request/validation\", \"server/response/validation\", \"client/request/options\"]\n    disable: [\"ogen/otel\"]\n"},
+}
 
 // NewEngine prepares everything. withRace also builds the race binary.
 func NewEngine(id string, withRace bool) (*Engine, error) {
@@ -41,10 +46,6 @@ func NewEngine(id string, withRace bool) (*Engine, error) {
 		return nil, err
 	}
 	h := simbuild.HarnessDir(s)
-	target := filepath.Join(h, "xw", "api")
-	if err := os.MkdirAll(target, 0o755); err != nil {
-		return nil, build.Toolf("%v", err)
-	}
 	work := filepath.Join(s.Dir, "genwork")
 	_ = os.MkdirAll(work, 0o755)
 	spec, err := os.ReadFile(filepath.Join(build.VerifDir, "worlds", "x", "world.yml"))
@@ -52,56 +53,109 @@ func NewEngine(id string, withRace bool) (*Engine, error) {
 		return nil, build.Toolf("%v", err)
 	}
 	_ = os.WriteFile(filepath.Join(work, "world.yml"), spec, 0o644)
-	_ = os.WriteFile(filepath.Join(work, "cfg.yml"), []byte(worldConfig), 0o644)
-	r := s.Run(work, 0, nil, filepath.Join(s.Bin, "ogen"), "--config", "cfg.yml", "--target", target, "--package", "api", "--clean", "world.yml")
-	if r.Err != nil || r.Exit != 0 {
-		// The tree under test cannot generate the world: the exchange properties cannot be examined.
-		return nil, build.Toolf("regenerating worlds/x/world.yml with the tree's CLI failed (exit %d): %s", r.Exit, tail(string(r.Stderr), 3000))
+	for _, w := range Worlds {
+		target := filepath.Join(h, "xw"+w.Name, "api")
+		if err := os.MkdirAll(target, 0o755); err != nil {
+			return nil, build.Toolf("%v", err)
+		}
+		_ = os.WriteFile(filepath.Join(work, "cfg.yml"), []byte(w.Config), 0o644)
+		r := s.Run(work, 0, nil, filepath.Join(s.Bin, "ogen"), "--config", "cfg.yml", "--target", target, "--package", "api", "--clean", "world.yml")
+		if r.Err != nil || r.Exit != 0 {
+			// The tree under test cannot generate the world: the exchange properties cannot be examined.
+			return nil, build.Toolf("regenerating worlds/x/world.yml (configuration %s) with the tree's CLI failed (exit %d): %s", w.Name, r.Exit, tail(string(r.Stderr), 3000))
+		}
 	}
 	// 2. instrument ogen's own packages
-	e := &Engine{S: s}
+	e := &Engine{S: s, Plain: map[string]string{}, Race: map[string]string{}}
 	if e.Rewrite, err = simbuild.InstrumentOgen(s); err != nil {
 		return nil, err
 	}
-	// 3. harness module with the typed world harness bound to the regenerated package
-	if err := simbuild.PrepareHarness(s, "xsim"); err != nil {
+	// 3. harness module with the typed world harness bound to each regenerated package
+	if err := simbuild.PrepareHarness(s); err != nil {
 		return nil, err
 	}
-	for _, f := range []string{"world.go"} {
-		p := filepath.Join(h, "xsim", f)
+	var patterns []string
+	for _, w := range Worlds {
+		dst := filepath.Join(h, "xsim"+w.Name)
+		if err := copyDir(filepath.Join(simbuild.SimSrc(), "xsim"), dst); err != nil {
+			return nil, build.Toolf("%v", err)
+		}
+		p := filepath.Join(dst, "world.go")
 		b, err := os.ReadFile(p)
 		if err != nil {
 			return nil, build.Toolf("%v", err)
 		}
-		b = []byte(strings.ReplaceAll(string(b), "XSIM_API_IMPORT", "simh/xw/api"))
+		b = []byte(strings.ReplaceAll(string(b), "XSIM_API_IMPORT", "simh/xw"+w.Name+"/api"))
 		if err := os.WriteFile(p, b, 0o644); err != nil {
 			return nil, build.Toolf("%v", err)
 		}
+		patterns = append(patterns, "./xw"+w.Name+"/...")
 	}
-	// 4. instrument the regenerated package with the same rules
+	// 4. instrument the regenerated packages with the same rules
 	e.GenStats, err = rewrite.Typed(rewrite.Options{
-		ModuleDir: h, Env: append(os.Environ(), s.Env()...), Patterns: []string{"./xw/..."},
+		ModuleDir: h, Env: append(os.Environ(), s.Env()...), Patterns: patterns,
 		SimrtPath: simbuild.SimrtPath, SimjxPath: simbuild.SimjxPath, R1: true, R2: true, R3: true, R5: true,
 	})
 	if err != nil {
 		return nil, build.Toolf("simrewrite of the regenerated world: %v", err)
 	}
 	var wg sync.WaitGroup
-	var e1, e2 error
-	wg.Add(1)
-	go func() { defer wg.Done(); e.Plain, e1 = simbuild.BuildTest(s, "xsim", "xsim.plain", false) }()
-	if withRace {
-		wg.Add(1)
-		go func() { defer wg.Done(); e.Race, e2 = simbuild.BuildTest(s, "xsim", "xsim.race", true) }()
+	var emu sync.Mutex
+	var firstErr error
+	for _, w := range Worlds {
+		for _, race := range []bool{false, true} {
+			if race && !withRace {
+				continue
+			}
+			wg.Add(1)
+			go func(name string, race bool) {
+				defer wg.Done()
+				out := "xsim" + name + ".plain"
+				if race {
+					out = "xsim" + name + ".race"
+				}
+				bin, err := simbuild.BuildTest(s, "xsim"+name, out, race)
+				emu.Lock()
+				defer emu.Unlock()
+				if err != nil && firstErr == nil {
+					firstErr = err
+				}
+				if race {
+					e.Race[name] = bin
+				} else {
+					e.Plain[name] = bin
+				}
+			}(w.Name, race)
+		}
 	}
 	wg.Wait()
-	if e1 != nil {
-		return nil, e1
-	}
-	if e2 != nil {
-		return nil, e2
+	if firstErr != nil {
+		return nil, firstErr
 	}
 	return e, nil
+}
+
+func copyDir(src, dst string) error {
+	if err := os.MkdirAll(dst, 0o755); err != nil {
+		return err
+	}
+	ents, err := os.ReadDir(src)
+	if err != nil {
+		return err
+	}
+	for _, en := range ents {
+		if en.IsDir() {
+			continue
+		}
+		b, err := os.ReadFile(filepath.Join(src, en.Name()))
+		if err != nil {
+			return err
+		}
+		if err := os.WriteFile(filepath.Join(dst, en.Name()), b, 0o644); err != nil {
+			return err
+		}
+	}
+	return nil
 }
 
 func tail(s string, n int) string {
